@@ -79,46 +79,114 @@ func c02Fixture(variant int, casketfile string) *fsFixture {
 }
 
 type c02Site struct {
-	variant    int
+	variant    int // 0..2 fixed fixtures, >= 10 seeded random fixture
 	casketfile string
 	prefix     string
 	browse     string
 	index      string
+	fx         *fsFixture // set for random fixtures
+}
+
+func (s c02Site) fixture() *fsFixture {
+	if s.fx != nil {
+		return s.fx
+	}
+	return c02Fixture(s.variant, s.casketfile)
 }
 
 func (s c02Site) fields() []string {
-	fx := c02Fixture(s.variant, s.casketfile)
-	return []string{hx.HS(fx.text()), hx.HS("/site"), hx.HS(s.casketfile), hx.HS(s.prefix), hx.HS(s.browse), hx.HS(s.index)}
+	return []string{hx.HS(s.fixture().text()), hx.HS("/site"), hx.HS(s.casketfile), hx.HS(s.prefix), hx.HS(s.browse), hx.HS(s.index)}
+}
+
+// c02RandomSite draws a fixture tree: nested directories, index pages under several names,
+// precompressed siblings (also of index pages, also as directories), names that need escaping,
+// the Casketfile somewhere inside or outside the root, sometimes hard-linked a second time.
+func c02RandomSite(g *hx.Gen, n int) c02Site {
+	r := g.Rng
+	fx := newFixture()
+	fx.dir("/site")
+	fx.file("/outside.txt")
+	dirNames := []string{"sub", "dir", "a", "b", "DIR", "x y", "d.gz", "index.html", "pre"}
+	fileNames := []string{"f.txt", "g.txt", "index.html", "index.htm", "default.txt", "f.txt.gz", "f.txt.br", "f.txt.zst", "index.html.gz", "g.txt.gz", ".hid", "q?.txt", "h#.txt", "100%.txt", "b\\s.txt", "ü.txt", "Casketfile"}
+	dirs := []string{"/site"}
+	for i := 0; i < 3+r.Intn(5); i++ {
+		parent := hx.Pick(r, dirs)
+		if strings.Count(parent, "/") > 3 {
+			continue
+		}
+		d := parent + "/" + hx.Pick(r, dirNames)
+		if !fx.has(d) {
+			fx.dir(d)
+			dirs = append(dirs, d)
+		}
+	}
+	var files []string
+	for i := 0; i < 6+r.Intn(10); i++ {
+		f := hx.Pick(r, dirs) + "/" + hx.Pick(r, fileNames)
+		if !fx.has(f) && !strings.HasSuffix(f, "/Casketfile") {
+			fx.file(f)
+			files = append(files, f)
+		}
+	}
+	cf := "/Casketfile"
+	switch r.Intn(5) {
+	case 0: // outside the root
+	case 1:
+		cf = "/site/Casketfile"
+	default: // an existing file's place, or a fresh name in some directory
+		if len(files) > 0 && r.Bool() {
+			cf = hx.Pick(r, files)
+		} else {
+			cf = hx.Pick(r, dirs) + "/Casketfile"
+		}
+	}
+	if !fx.has(cf) {
+		fx.file(cf)
+	}
+	if r.Chance(1, 3) && strings.HasPrefix(cf, "/site/") {
+		fx.link(hx.Pick(r, dirs)+"/second-name", cf)
+	}
+	prefix := hx.Pick(r, []string{"", "", "/pre", "/a"})
+	browse := hx.Pick(r, []string{"", "/|" + c02Arch, "/|tar", "/sub|zip;/dir|", "/a/|tar.gz"})
+	index := hx.Pick(r, []string{"", "", "f.txt,index.html", "g.txt"})
+	return c02Site{variant: 10 + n, casketfile: cf, prefix: prefix, browse: browse, index: index, fx: fx}
 }
 
 const c02Arch = "zip,tar,tar.gz"
 
 func c02Sites(g *hx.Gen) []c02Site {
 	sites := []c02Site{
-		{0, "/site/Casketfile", "", "/|" + c02Arch, ""},
-		{0, "/site/Casketfile", "", "", ""},
-		{0, "/Casketfile", "", "/|" + c02Arch, ""},
-		{0, "/site/dir/Casketfile", "", "/|" + c02Arch, ""},
-		{0, "/site/dir/c.txt.gz", "", "/dir|", ""},
-		{0, "/site/sub/index.html", "", "/|tar", ""},
-		{0, "/site/Casketfile", "/pre", "/|" + c02Arch, ""},
-		{0, "/site/Casketfile", "/pre", "", ""},
-		{1, "/site/Casketfile", "", "/|" + c02Arch, ""},
-		{1, "/site/Casketfile", "", "/dir|zip;/sub|", "c.txt,index.html"},
-		{1, "/site/DIR/Casketfile", "", "/DIR|tar.gz", ""},
-		{1, "/site/Casketfile", "/a%20b", "/|tar", ""},
-		{2, "/site/Casketfile", "", "/|" + c02Arch, ""},
-		{2, "/site/Casketfile", "/pre", "/|zip", ""},
-		{2, "/site/Casketfile", "/site", "/|tar", ""},
-		{2, "/site/dir/deep/index.txt.br", "", "/dir/|tar", ""},
-		{2, "/site2/Casketfile", "", "/|" + c02Arch, ""},
+		{0, "/site/Casketfile", "", "/|" + c02Arch, "", nil},
+		{0, "/site/Casketfile", "", "", "", nil},
+		{0, "/Casketfile", "", "/|" + c02Arch, "", nil},
+		{0, "/site/dir/Casketfile", "", "/|" + c02Arch, "", nil},
+		{0, "/site/dir/c.txt.gz", "", "/dir|", "", nil},
+		{0, "/site/sub/index.html", "", "/|tar", "", nil},
+		{0, "/site/Casketfile", "/pre", "/|" + c02Arch, "", nil},
+		{0, "/site/Casketfile", "/pre", "", "", nil},
+		{1, "/site/Casketfile", "", "/|" + c02Arch, "", nil},
+		{1, "/site/Casketfile", "", "/dir|zip;/sub|", "c.txt,index.html", nil},
+		{1, "/site/DIR/Casketfile", "", "/DIR|tar.gz", "", nil},
+		{1, "/site/Casketfile", "/a%20b", "/|tar", "", nil},
+		{2, "/site/Casketfile", "", "/|" + c02Arch, "", nil},
+		{2, "/site/Casketfile", "/pre", "/|zip", "", nil},
+		{2, "/site/Casketfile", "/site", "/|tar", "", nil},
+		{2, "/site/dir/deep/index.txt.br", "", "/dir/|tar", "", nil},
+		{2, "/site2/Casketfile", "", "/|" + c02Arch, "", nil},
+	}
+	nrand := 8
+	if g.Thorough() {
+		nrand = 60
+	}
+	for i := 0; i < nrand; i++ {
+		sites = append(sites, c02RandomSite(g, i))
 	}
 	if g.Thorough() {
 		for v := 0; v < 3; v++ {
 			for _, cf := range []string{"/site/Casketfile", "/site/sub/Casketfile", "/site/a.txt.gz", "/Casketfile"} {
 				for _, pre := range []string{"", "/pre", "/p/q"} {
 					for _, br := range []string{"", "/|" + c02Arch, "/sub|;/dir|tar"} {
-						sites = append(sites, c02Site{v, cf, pre, br, ""})
+						sites = append(sites, c02Site{variant: v, casketfile: cf, prefix: pre, browse: br})
 					}
 				}
 			}
@@ -131,16 +199,28 @@ func c02Sites(g *hx.Gen) []c02Site {
 var c02Segs = []string{"", ".", "..", "%2e", "%2E%2e", "..%2f", "%2f", "%5c", "\\", "...", "%00", "%ff", "%zz", "%", "a.txt%20", "A.TXT", "SUB", "%c0%ae%c0%ae", ";", "*", "%3f", "%23"}
 
 func c02Names(s c02Site) []string {
-	names := []string{"a.txt", "a.txt.gz", "sub", "dir", "deep", "index.html", "c.txt", "b.txt", "d.txt", "empty", "Casketfile", "outside.txt", "site2", "x.txt", "site"}
-	switch s.variant {
-	case 1:
-		names = append(names, "DIR", "e.txt", "sp%20ace.txt", "sp ace.txt", "q%3fm.txt", "h%23h.txt", "pct%2541.txt", "pct%41.txt", "back%5cslash.txt", "back\\slash.txt", "co:lon", "f.txt", "index.htm", ".well", "known.txt", "%c3%a9.txt")
-	case 2:
-		names = append(names, "c.txt.gz", "index.txt", "link-to-a.txt", "link-to-casketfile", "pre", "p.txt", "s.txt")
+	seen := map[string]bool{}
+	var names []string
+	add := func(n string) {
+		if n != "" && !seen[n] {
+			seen[n] = true
+			names = append(names, n)
+		}
 	}
+	for _, e := range s.fixture().entries {
+		for _, seg := range strings.Split(e.path, "/") {
+			add(seg)
+			esc := (&url.URL{Path: seg}).EscapedPath()
+			add(esc)
+			add(strings.ReplaceAll(seg, "%", "%25"))
+		}
+	}
+	add("Casketfile")
 	if s.prefix != "" {
-		names = append(names, strings.Split(strings.TrimPrefix(s.prefix, "/"), "/")...)
-		names = append(names, "evil.test")
+		for _, seg := range strings.Split(strings.TrimPrefix(s.prefix, "/"), "/") {
+			add(seg)
+		}
+		add("evil.test")
 	}
 	return names
 }
@@ -156,8 +236,15 @@ func c02Target(prefix string, segs []string, q string) string {
 func c02Gen(g *hx.Gen) {
 	for _, s := range c02Sites(g) {
 		sf := s.fields()
+		nEmit := 0
 		emit := func(method, target, ae string) {
-			g.Case(append(append([]string{}, sf...), method, hx.HS(target), hx.HS(ae))...)
+			// every seventh case asks for the HTML listing instead of the JSON one
+			nEmit++
+			fm := "j"
+			if nEmit%7 == 0 {
+				fm = "h"
+			}
+			g.Case(append(append([]string{}, sf...), method, hx.HS(target), hx.HS(ae), fm)...)
 		}
 		names := c02Names(s)
 		alpha := append(append([]string{}, c02Segs...), names...)
@@ -173,7 +260,7 @@ func c02Gen(g *hx.Gen) {
 			}
 		}
 		// every directory and file of the fixture x trailing slash x query x encoding
-		fx := c02Fixture(s.variant, s.casketfile)
+		fx := s.fixture()
 		for _, e := range fx.entries {
 			if !strings.HasPrefix(e.path, "/site") {
 				continue
@@ -220,7 +307,7 @@ func c02Gen(g *hx.Gen) {
 }
 
 func c02Eval(f []string) (string, []string) {
-	if len(f) != 9 {
+	if len(f) != 10 {
 		return "bad-case", nil
 	}
 	site, err := fsSiteFor(f[:6], func(T string) (string, error) {
@@ -231,11 +318,14 @@ func c02Eval(f []string) (string, []string) {
 	}
 	method, target, ae := f[6], hx.UnHS(f[7]), hx.UnHS(f[8])
 	hdr := "Accept: application/json\r\n"
+	if f[9] == "h" {
+		hdr = "Accept: text/html\r\n"
+	}
 	if ae != "" {
 		hdr += "Accept-Encoding: " + ae + "\r\n"
 	}
 	out, kind := site.roundTrip(method, target, hdr)
-	tags := []string{"kind=" + kind, "method=" + method}
+	tags := []string{"kind=" + kind, "method=" + method, "listfmt=" + f[9]}
 	if kind == "S404" || kind == "S400" || kind == "S405" {
 		tags = append(tags, "trivial-"+kind)
 	}
